@@ -11,6 +11,9 @@ Wire format (VCD symbols may contain parentheses, so a symbol travels as the lis
 * `vcd wav w (v…)`                          → `(0b… …)` the text-wave record of a w-bit signal
 * `vcd symbol n` / `vcd symbols lo cnt`     → `(codes…)` / `((codes…) …)`: `symCodes` of net n / of nets lo … lo+cnt-1
 * `vcd sym n`                              → `(codes…)`
+* `vcd nettab ((m…)…) (m…)`                 → `ok ((m…)…) <clk|none> ((m n)…)` or `raise`: `netTable` of the value nets (members
+  `m` = `(w id)` whole signal, `c` = `s.clk`, `(s id)` slice / bit / field of signal id, `k` constant; enumeration order)
+  and the signals in `$var` order: final `trimmed_value_nets`, `vcd_clock_net_idx`, per `$var` line the symbol number
 with `ev` = `(t <time>)` or `(c <value token> (codes…))`; the value token is `0`, `1` or `b<digits>` — a `b…`
 token stands for the text `b<digits>` followed by the blank that separated it from the symbol in the file.
 -/
@@ -40,6 +43,19 @@ def decl? : Sexp → Option (Nat × String)
 def rows? (x : Sexp) : Option (List (List Nat)) := do
   let xs ← x.list?
   xs.mapM Sexp.nats?
+
+def member? : Sexp → Option Member
+  | .atom "c" => some .clk
+  | .atom "k" => some .const
+  | .list [.atom "w", i] => do some (.whole (← i.nat?))
+  | .list [.atom "s", i] => do some (.slice (← i.nat?))
+  | _ => none
+
+def memberOut : Member → String
+  | .whole i => s!"w{i}"
+  | .clk => "c"
+  | .slice i => s!"s{i}"
+  | .const => "k"
 
 def showOpt : Option Nat → String
   | some v => toString v
@@ -71,6 +87,15 @@ def handle (args : List Sexp) : Option String :=
       let cnt ← cnt.nat?
       some ("(" ++ " ".intercalate ((List.range cnt).map (fun i => natsToString (symCodes (lo + i)))) ++ ")")
   | [.atom "sym", n] => do some (symOut (symbol (← n.nat?)))
+  | [.atom "nettab", .list nets, .list decl] => do
+      let nets ← nets.mapM (fun n => do (← n.list?).mapM member?)
+      let decl ← decl.mapM member?
+      match netTable nets decl with
+      | none => some "raise"
+      | some t =>
+        let ns := "(" ++ " ".intercalate (t.nets.map (fun n => "(" ++ " ".intercalate (n.map memberOut) ++ ")")) ++ ")"
+        let vs := "(" ++ " ".intercalate (t.vars.map (fun p => s!"({memberOut p.1} {p.2})")) ++ ")"
+        some s!"ok {ns} {match t.clk with | some i => toString i | none => "none"} {vs}"
   | _ => none
 
 end PV.Driver.Vcd
